@@ -32,6 +32,11 @@ type oracle struct {
 	committedTxns []committedTxn
 	lastCleanupTs uint64
 	intentTable   map[uint64]uint64 // key hash -> latest commit ts
+	// activeReads holds every transaction between readTs and doneRead with its
+	// read timestamp (guarded by the mutex). The conflict history is pruned
+	// below the smallest of them: readMark does not track an index begun at or
+	// below its DoneUntil (nor index 0), so it cannot bound the pruning.
+	activeReads map[*Txn]uint64
 
 	// closer is used to stop watermarks.
 	closer *utils.Closer
@@ -63,6 +68,7 @@ func newOracle(opt Options) *oracle {
 	orc := &oracle{
 		detectConflicts: opt.DetectConflicts,
 		intentTable:     make(map[uint64]uint64),
+		activeReads:     make(map[*Txn]uint64),
 		// We're not initializing nextTxnTs and readOnlyTs. It would be done after replay in Open.
 		//
 		// WaterMarks must be 64-bit aligned for atomic package, hence we must use pointers here.
@@ -128,11 +134,25 @@ func (o *oracle) txnMetricsSnapshot() metrics.TxnMetrics {
 }
 
 func (o *oracle) readTs() uint64 {
+	return o.beginRead(nil)
+}
+
+// beginRead picks the read timestamp for txn and registers it as an active
+// reader until doneRead.
+func (o *oracle) beginRead(txn *Txn) uint64 {
+	// Choose the read timestamp and register the reader in one critical
+	// section with newCommitTs, so that cleanupCommittedTransactions never
+	// prunes commits above a reader that is about to register.
+	o.Lock()
 	readTs := o.nextTxnTs.Load() - 1
 	if last := o.txnMark.LastIndex(); last < readTs {
 		readTs = last
 	}
+	if txn != nil {
+		o.activeReads[txn] = readTs
+	}
 	o.readMark.Begin(readTs)
+	o.Unlock()
 
 	// Wait for all txns which have no conflicts, have been assigned a commit
 	// timestamp and are going through the write to value log and LSM tree
@@ -212,11 +232,26 @@ func (o *oracle) newCommitTs(txn *Txn) (uint64, bool) {
 	return ts, false
 }
 
+// doneRead must be called while having a lock.
 func (o *oracle) doneRead(txn *Txn) {
 	if !txn.doneRead {
 		txn.doneRead = true
+		delete(o.activeReads, txn)
 		o.readMark.Done(txn.readTs)
 	}
+}
+
+// minActiveReadTs returns the smallest read timestamp of a registered
+// transaction, or the timestamp a new transaction would read at if there is
+// none. Must be called while having a lock.
+func (o *oracle) minActiveReadTs() uint64 {
+	minTs := o.nextTxnTs.Load() - 1
+	for _, ts := range o.activeReads {
+		if ts < minTs {
+			minTs = ts
+		}
+	}
+	return minTs
 }
 
 func (o *oracle) cleanupCommittedTransactions() { // Must be called under o.Lock
@@ -226,13 +261,11 @@ func (o *oracle) cleanupCommittedTransactions() { // Must be called under o.Lock
 		return
 	}
 	// Same logic as discardAtOrBelow but unlocked
-	maxReadTs := o.readMark.DoneUntil()
-
-	utils.AssertTrue(maxReadTs >= o.lastCleanupTs)
+	maxReadTs := o.minActiveReadTs()
 
 	// do not run clean up if the maxReadTs (read timestamp of the
 	// oldest transaction that is still in flight) has not increased
-	if maxReadTs == o.lastCleanupTs {
+	if maxReadTs <= o.lastCleanupTs {
 		return
 	}
 	o.lastCleanupTs = maxReadTs
@@ -553,7 +586,9 @@ func (txn *Txn) Discard() {
 		txn.clearPendingWrites()
 	}
 
+	txn.db.orc.Lock()
 	txn.db.orc.doneRead(txn)
+	txn.db.orc.Unlock()
 	txn.db.orc.trackTxnFinish()
 
 	txn.recycle()
@@ -796,7 +831,7 @@ func (db *DB) newTransaction(update bool) *Txn {
 		}
 	}
 	db.orc.trackTxnStart()
-	txn.readTs = db.orc.readTs()
+	txn.readTs = db.orc.beginRead(txn)
 
 	return txn
 }
